@@ -97,6 +97,10 @@ func pathRuleDoc(p *PRNG) string {
 		}
 	}
 	body := "  {\n" + strings.Join(props, ",\n") + "\n  }\n"
+	if p.Chance(1, 5) { // the Path body is a reference to a user type of some notation
+		typ := Pick(p, []string{"TYPE @pv\n{\n  \"id\": 1\n}\n", "TYPE @pv regex\n  /ab+/\n", "TYPE @pv any\n", "TYPE @pv empty\n", "TYPE @pv\n  12\n", "TYPE @pv\n  @pw | @px\nTYPE @pw\n  1\nTYPE @px\n  \"s\"\n"})
+		return "JSIGHT 0.3\n" + typ + "GET " + path + "\n  Path\n    @pv\n  200 any\n"
+	}
 	if p.Chance(1, 2) {
 		return "JSIGHT 0.3\nGET " + path + "\n  Path\n" + body + "  200 any\n"
 	}
